@@ -173,22 +173,35 @@ def _classify_failed(desc):
 
 
 def playback(h, featset, timeout):
-    """Re-run one failing harness for a concrete counterexample; returns list of byte vectors or None."""
+    """Re-run ONE failing harness alone (unambiguous output) for its failed checks and a concrete counterexample.
+    -> (vals or None, parsed_result_dict, raw_tail)"""
     cmd = _base_cmd(featset, ("concrete-playback",)) + ["--harness", h.name, "--concrete-playback=print",
-                                                         "--output-format=terse"]
+                                                         "--output-format=terse", "--harness-timeout", "%ds" % timeout]
     try:
         p = subprocess.run(cmd, cwd=KANI_DIR, env=_env(), stdout=subprocess.PIPE, stderr=subprocess.STDOUT,
-                           text=True, timeout=timeout)
+                           text=True, timeout=timeout + 600)
     except subprocess.TimeoutExpired:
-        return None, "playback timeout"
-    m = re.search(r'let concrete_vals: Vec<Vec<u8>> = vec!\[(.*?)\n\s*\];', p.stdout, re.S)
-    if not m:
-        return None, p.stdout[-3000:]
-    vals = []
-    for vm in re.finditer(r'vec!\[([\d, ]*)\]', m.group(1)):
-        t = vm.group(1).strip()
-        vals.append([int(x) for x in t.split(",") if x.strip()] if t else [])
-    return vals, p.stdout[-3000:]
+        return None, dict(status="TIMEOUT", failed_checks=[], checks=0, failed=0, raw=""), "playback timeout"
+    out = p.stdout
+    d = dict(status=None, checks=0, failed=0, failed_checks=[], raw=out[-6000:])
+    m = re.search(r'\*\* (\d+) of (\d+) failed', out)
+    if m:
+        d["failed"], d["checks"] = int(m.group(1)), int(m.group(2))
+    for fm in re.finditer(r'Failed Checks: (.*)\n\s*File: "(.*?)", line (\d+), in (.*)', out):
+        d["failed_checks"].append((fm.group(1).strip(), "%s:%s in %s" % (fm.group(2), fm.group(3), fm.group(4).strip())))
+    if re.search(r'CBMC timed out|out of memory|Killed', out):
+        d["status"] = "TIMEOUT"
+    else:
+        m = re.search(r'VERIFICATION:- (SUCCESSFUL|FAILED)', out)
+        d["status"] = m.group(1) if m else None
+    vals = None
+    m = re.search(r'let concrete_vals: Vec<Vec<u8>> = vec!\[(.*?)\n\s*\];', out, re.S)
+    if m:
+        vals = []
+        for vm in re.finditer(r'vec!\[([\d, ]*)\]', m.group(1)):
+            t = vm.group(1).strip()
+            vals.append([int(x) for x in t.split(",") if x.strip()] if t else [])
+    return vals, d, out[-3000:]
 
 
 def native_replay(h, featset, vals, timeout=600):
@@ -244,35 +257,43 @@ def run_group(label, hs, featset, jobs=8):
         r.error = "harness crate does not compile against the current tree (tool limit, not an alarm) [%s]:\n%s" % (featset, tail)
         r.wall_s = time.time() - t0
         return r
-    res = parse_terse(text)
+    # With -j the per-harness result blocks are interleaved and unlabeled; only the final summary is authoritative.
+    failed_names = {n.split("::")[-1] for n in re.findall(r'Verification failed for - ([\w:]+)', text)}
+    msum = re.search(r'Complete - (\d+) successfully verified harnesses, (\d+) failures, (\d+) total', text)
+    if not msum or int(msum.group(3)) != len(hs):
+        r.error = "cargo kani group %s: no/inconsistent summary (%s harnesses requested)\n%s" % (label, len(hs), text[-2500:])
+        r.wall_s = time.time() - t0
+        return r
+    blocks = [(int(a), int(b)) for a, b in re.findall(r'\*\* (\d+) of (\d+) failed', text)]
+    ok_checks = sum(b for a, b in blocks if a == 0)
+    covers_bad = [m for m in re.findall(r'\*\* (\d+) of (\d+) cover properties satisfied', text) if int(m[0]) < int(m[1])]
+    n_ok = len(hs) - len(failed_names)
+    r.solver_s += sum(float(x) for x in re.findall(r'Verification Time: ([\d.]+)s', text))
+    r.samples.append({"kani_group": label, "harnesses": len(hs), "verified": n_ok, "cbmc_checks_in_verified_harnesses": ok_checks})
     for h in hs:
-        d = res.get(h.name)
         oname = "kani::%s[%s]" % (h.name, featset)
         for f in h.fns:
             r.functions.append("%s [%s]" % (f, FEATURE_SETS[featset] or "default features"))
-        for a in h.assumes:
-            r.assumptions.append("harness %s: %s" % (h.name, a))
-        if d is None or d["status"] is None:
-            r.obls.append(Obl(oname, label, "kani-cbmc", "undecided", bounded=h.bound,
-                              detail="no result (timeout %ds / out of memory / not run)" % h.timeout))
-            continue
-        r.solver_s += d["time"]
-        if d["status"] == "SUCCESSFUL":
-            cov = d.get("covers")
-            if cov and cov[0] < cov[1]:
+        for a_ in h.assumes:
+            r.assumptions.append("harness %s: %s" % (h.name, a_))
+        if h.name not in failed_names:
+            if covers_bad:
                 r.obls.append(Obl(oname, label, "kani-cbmc", "undecided", bounded=h.bound,
-                                  detail="vacuity guard: only %d of %d cover properties reachable" % cov))
+                                  detail="vacuity guard: a cover property in this group is unreachable: %s" % covers_bad))
                 continue
-            if d["checks"] == 0:
-                r.obls.append(Obl(oname, label, "kani-cbmc", "undecided", bounded=h.bound,
-                                  detail="vacuity guard: harness generated zero checks"))
-                continue
-            r.obls.append(Obl(oname, label, "kani-cbmc", "discharged", bounded=h.bound, count=d["checks"],
-                              sample=h.doc))
-            r.samples.append({"harness": h.name, "features": FEATURE_SETS[featset] or "default", "checks": d["checks"],
+            r.obls.append(Obl(oname, label, "kani-cbmc", "discharged", bounded=h.bound, count=1, sample=h.doc))
+            r.samples.append({"harness": h.name, "features": FEATURE_SETS[featset] or "default",
                               "bound": h.bound or "none (full domain)", "what": h.doc[:300]})
             continue
-        # FAILED
+        # failed or timed out in the batch: re-run alone for an unambiguous verdict + counterexample
+        vals, d, pb = playback(h, featset, h.timeout)
+        if d["status"] in (None, "TIMEOUT"):
+            r.obls.append(Obl(oname, label, "kani-cbmc", "undecided", bounded=h.bound,
+                              detail="no result within %ds (timeout / out of memory)" % h.timeout))
+            continue
+        if d["status"] == "SUCCESSFUL":
+            r.obls.append(Obl(oname, label, "kani-cbmc", "discharged", bounded=h.bound, count=1, sample=h.doc))
+            continue
         classes = {}
         for desc, loc in d["failed_checks"]:
             classes.setdefault(_classify_failed(desc), []).append((desc, loc))
@@ -281,34 +302,28 @@ def run_group(label, hs, featset, jobs=8):
         if h.tolerate == "panic":
             classes.pop("assert", None)
         elif h.tolerate:
-            # expected panic at a named location (e.g. build_strict on an invalid format)
             for k in list(classes):
                 classes[k] = [c for c in classes[k] if not re.search(h.tolerate, c[1])]
                 if not classes[k]:
                     classes.pop(k)
+        if not classes:
+            r.obls.append(Obl(oname, label, "kani-cbmc", "discharged", bounded=h.bound, count=1, sample=h.doc))
+            continue
         if set(classes) <= {"unwind"}:
-            if not classes and h.tolerate and h.tolerate != "panic" and d["failed"] == 0:
-                pass
-            if classes:
-                r.obls.append(Obl(oname, label, "kani-cbmc", "undecided", bounded=h.bound,
-                                  detail="unwinding bound exceeded (harness bound too small for the current code): %s" % classes))
-            else:
-                r.obls.append(Obl(oname, label, "kani-cbmc", "discharged", bounded=h.bound, count=max(1, d["checks"] - d["failed"]),
-                                  sample=h.doc))
+            r.obls.append(Obl(oname, label, "kani-cbmc", "undecided", bounded=h.bound,
+                              detail="unwinding bound exceeded (harness bound too small for the current code): %s" % classes))
             continue
         first = next((c for k in ("memory", "assert") for c in classes.get(k, [])), ("?", "?"))
         detail = "failed checks: " + "; ".join("%s @ %s" % c for k in classes for c in classes[k])[:3000] + "\n" + d["raw"][-2500:]
-        vals, pb = playback(h, featset, h.timeout + 300)
         cex = None
         if vals is not None:
             st, msg = native_replay(h, featset, vals)
             cex = dict(harness=h.name, features=FEATURE_SETS[featset], concrete_vals=vals, native_replay=st,
                        native_output=msg, confirmed_native=(st == "confirmed"),
-                       replay_cmd="cd /verif/kani && cargo run --offline --bin replay %s-- %s %s" % (
+                       replay_cmd="cd /verif/kani && RUSTFLAGS='--cfg lexical_verif' cargo run --offline --bin replay %s-- %s %s" % (
                            ("--features %s " % FEATURE_SETS[featset]) if FEATURE_SETS[featset] else "", h.name,
-                           ",".join("".join("%02x" % b for b in v) for v in vals)))
+                           ",".join("".join("%02x" % b_ for b_ in v) for v in vals)))
             if st == "passed" and "memory" not in classes:
-                # the counterexample does not reproduce on the real code natively: never alarm
                 r.obls.append(Obl(oname, label, "kani-cbmc", "undecided", bounded=h.bound,
                                   detail="kani counterexample did not reproduce natively (model artefact?)\n" + detail, cex=cex))
                 continue
